@@ -289,7 +289,8 @@ def run_check(prop, args, seed, t0):
     with multiprocessing.Pool(min(args.jobs, max(1, len(jobs) + len(bfids)))) as pool:
         presults = pool.map_async(_worker, jobs, chunksize=1)
         bjobs = [(f, tier, seed, regions_by_fid.get(f)) for f in bfids]
-        has_bounded = os.path.exists(os.path.join(HERE, "harness", "b_%s.py" % prop.lower()))
+        has_bounded = os.path.exists(os.path.join(HERE, "harness", "b_%s.py" % prop.lower())) \
+            and not os.environ.get("PYVC_NO_BOUNDED")
         if has_bounded:
             known_cases = {}
             for e in active:
